@@ -9,6 +9,7 @@ import (
 	"regexp"
 	"regexp/syntax"
 	"strings"
+	"unicode"
 
 	"golang.org/x/tools/go/ssa"
 )
@@ -218,5 +219,47 @@ func registerTemplate(p *Program) {
 func (ex *Exec) effect(what, mode string, obj Value) {
 	if ex.Effects != nil {
 		ex.Effects(what, mode, obj)
+	}
+}
+
+// unicode classification: exact tables for ASCII; symbolic runes reach here only after the
+// range-over-string model restricted them to < 0x80.
+func registerUnicode(p *Program) {
+	I := p.Intrinsic
+	rng := func(r *Term, lo, hi int64) *Term { return And(Le(IntC(lo), r), Le(r, IntC(hi))) }
+	I["unicode.IsLetter"] = func(ex *Exec, fr *frame, fn *ssa.Function, a []Value) Value {
+		r := tstr(a[0])
+		if r.IsConst() {
+			return BoolC(unicode.IsLetter(rune(r.I.Int64())))
+		}
+		return Or(rng(r, 65, 90), rng(r, 97, 122))
+	}
+	I["unicode.IsUpper"] = func(ex *Exec, fr *frame, fn *ssa.Function, a []Value) Value {
+		r := tstr(a[0])
+		if r.IsConst() {
+			return BoolC(unicode.IsUpper(rune(r.I.Int64())))
+		}
+		return rng(r, 65, 90)
+	}
+	I["unicode.IsLower"] = func(ex *Exec, fr *frame, fn *ssa.Function, a []Value) Value {
+		r := tstr(a[0])
+		if r.IsConst() {
+			return BoolC(unicode.IsLower(rune(r.I.Int64())))
+		}
+		return rng(r, 97, 122)
+	}
+	I["unicode.IsDigit"] = func(ex *Exec, fr *frame, fn *ssa.Function, a []Value) Value {
+		r := tstr(a[0])
+		if r.IsConst() {
+			return BoolC(unicode.IsDigit(rune(r.I.Int64())))
+		}
+		return rng(r, 48, 57)
+	}
+	I["unicode.IsSpace"] = func(ex *Exec, fr *frame, fn *ssa.Function, a []Value) Value {
+		r := tstr(a[0])
+		if r.IsConst() {
+			return BoolC(unicode.IsSpace(rune(r.I.Int64())))
+		}
+		return Or(rng(r, 9, 13), Eq(r, IntC(32)))
 	}
 }
